@@ -127,6 +127,31 @@ func (n *NodeProcessor) Close() error {
 	return n.queue.Close()
 }
 
+// CloseIfEmpty closes the NodeProcessor unless its queue holds data, and reports
+// whether it is closed. Writers append with the read lock held, so the decision
+// is not overtaken by a write accepted after a caller last looked at Empty.
+func (n *NodeProcessor) CloseIfEmpty() (bool, error) {
+	n.mu.Lock()
+	if n.closed() {
+		n.mu.Unlock()
+		return true, nil // Already closed.
+	}
+	if !n.queue.Empty() {
+		n.mu.Unlock()
+		return false, nil
+	}
+	close(n.done)
+	n.mu.Unlock()
+
+	n.wg.Wait()
+
+	// Release all remaining resources.
+	n.mu.Lock()
+	defer n.mu.Unlock()
+	n.done = nil
+	return true, n.queue.Close()
+}
+
 func (n *NodeProcessor) closed() bool {
 	select {
 	case <-n.done:
